@@ -40,6 +40,10 @@ func genW1(prop, tier string, r *simrt.Rng) *w1Case {
 		if r.Chance(0.5) {
 			genC05(c, r)
 		} else {
+			if r.Chance(0.12) {
+				genTwinAxes(c, r, []string{"cc", "cc2", "pitch_bend"})
+				return c
+			}
 			others := []string{"C01", "C02", "C03", "C04", "C13", "C06", "C07", "C08", "C08", "C06"}
 			inner := genW1(others[r.Intn(len(others))], tier, r)
 			*c = *inner
@@ -349,16 +353,30 @@ func genC03(c *w1Case, r *simrt.Rng) {
 	o := genOpts{nKeys: [2]int{2, 7}, nMaps: [2]int{1, 2}, notePool: pool, offsets: r.Chance(0.3),
 		actions: []string{"octave_up", "octave_down", "semitone_up", "semitone_down", "channel_up", "channel_down"}, exitLen: -1, defaults: r.Chance(0.5),
 		unmapProb: 0.1, remapProb: 0.3, handlers: 1}
-	if r.Chance(0.4) {
+	switch r.Pick(5, 4, 2) {
+	case 1:
 		// collisions through transposition: notes one semitone / one octave apart
 		o.notePool = []int{60, 61, 72, 60, 48}
+	case 2:
+		// the ends of the pitch range on neighbouring channels must stay independent
+		o.notePool = []int{0, 127, 0, 127, 1, 126}
+		o.offsets = true
+	}
+	if r.Chance(0.3) {
+		o.actions = append(o.actions, "panic")
 	}
 	c.d = baseDesc(r, o)
 	g := newScriptGen(r, c.d)
 	g.steps(r.Range(8, 50), 8, 2, 3, false)
-	g.releaseAll()
+	if r.Chance(0.7) {
+		g.releaseAll()
+	}
 	c.script = g.out
 	c.burst = r.Chance(0.2)
+	// disconnect while several keys share a pitch
+	if !c.burst && len(c.script) > 2 && r.Chance(0.5) {
+		c.unplugs = []int{-1, r.Intn(len(c.script))}
+	}
 }
 
 // genC04Hats: the state actions triggered by hat axes of type "action" (as the shipped gamepad configurations
